@@ -374,7 +374,7 @@ func quoteMetaBytes(s string) string {
 func c19GenDocker(t *rapid.T) C19Case {
 	var c C19Case
 	c.Docker = true
-	texts := []string{"hello", "level=info n=1", "level=error n=2 dur=5s", "level=warn n=x", "GET /a 200", "hello world"}
+	texts := []string{"hello", "level=info n=1", "level=error n=2 dur=5s", "level=warn n=x", "GET /a 200", "hello world", "tier=db level=warn n=3", "tier=web n=4"}
 	ts := datagen.BaseTS
 	for i, n := 0, rapid.IntRange(1, 3).Draw(t, "dk-containers"); i < n; i++ {
 		labels := model.LabelMap{"container": fmt.Sprintf("c%d", i)}
@@ -416,6 +416,15 @@ func c19GenDocker(t *rapid.T) C19Case {
 		return matcher(label)
 	}
 	c.F, c.G = filter("dk-f"), filter("dk-g")
+	// The selector's own matcher once more as a filter, behind a parser that may have put
+	// another value under that name: a filter like any other, not one "the selector guarantees".
+	if len(c.Q.Sel) > 0 && rapid.Bool().Draw(t, "dk-repeat-selector") {
+		if len(c.Q.Stages) == 0 {
+			c.Q.Stages = append(c.Q.Stages, gen.Stage{Kind: "logfmt"})
+		}
+		m := c.Q.Sel[0]
+		c.F = gen.Stage{Kind: "labelfilter", Pred: &gen.Pred{Kind: "match", Label: m.Label, Op: m.Op, Str: m.Value}}
+	}
 	c.A, c.B = matcher("dk-a"), matcher("dk-b")
 	c.Conj = rapid.SampledFrom([]string{"and", ",", " "}).Draw(t, "dk-conj")
 	return c
